@@ -16,10 +16,14 @@ SPEC = {
         "src/NMEA2000.cpp on every run; it is validated on every run by the correspondence: the real setter's bytes and the "
         "real parser's outputs on generated tuples must equal `encode` / `parseMsg` of the generated layouts",
         "a setter that branches on an integer parameter compared with constants (129029 reference stations, 126993 interval "
-        "limit) is translated once per path (pairs <pgn>_t / <pgn>_e with the path condition `setCond`); the parser is then read "
+        "limit) is translated once per path (pairs <pgn>_a / <pgn>_b (longest payload first) with the path condition `setCond`); the parser is then read "
         "under the payload constants that path writes, which are recorded as `payloadGuard` and proved to be written "
         "(`payloadGuardOK`). Which path applies to a tuple is decided by the driver from `setCond` and validated by the "
         "correspondence only",
+        "the evaluator is sound by construction: a statement or expression it does not interpret exactly makes the function "
+        "(or the rest of a parser behind an established PGN guard) 'not translated', never a guessed value; same-TU helper "
+        "functions are fetched by name and inlined with reference semantics, loops with constant conditions are executed, "
+        "guard clauses on header conditions are read as assumptions of the accepted path",
         "outside the translated fragment (reported in evidence coverage.translator.layouts): SetN2kPGN126464 (loop), the "
         "Append... builders and the per-satellite parser of 129540, variable-length strings and everything behind them, "
         "floating-point conditionals (127513 Peukert exponent), parser conditionals on non-constant payload (129029 without "
